@@ -126,7 +126,7 @@ def run(ctx, spec):
                     continue
                 fl, bt = flats[i]
                 if x < 0.12:
-                    op = [0]
+                    op = [0] if rng.random() < 0.6 else [0, rng.randrange(100)]      # reset() / reset(seed=..., options=...)
                 else:
                     try:
                         ai = gen.pick_action(r, fl, bt)
@@ -135,7 +135,7 @@ def run(ctx, spec):
                     k = gen.pick_draw(fl[ai][3])
                     arg = [0, ai] if r.modes[1] else [1, dyn.param_vector(rng, scen_list[i][1], fl[ai])]
                     op = [1, arg, k] if x < 0.85 else [2, rng.randrange(len(r.pool)), arg, k]
-                mops.append([2, i, op])
+                mops.append([2, i, dyn.model_ops([op])[0]])
                 try:
                     impl_outs.append(r.run_op(op))
                 except Inexact:
